@@ -997,6 +997,8 @@ class Interp:
                         base = base.value
                     if isinstance(base, ast.Name):
                         out.add(base.id)
+                    elif isinstance(base, ast.Call) and isinstance(base.func, ast.Name) and base.func.id == 'super':
+                        out.add('self')  # super().method(...) may mutate the receiver
         return out
 
     def havoc_var(self, name, hint):
@@ -1114,6 +1116,13 @@ class Interp:
         if s.orelse:
             self.oos('for/else', s)
         it = s.iter
+        mapped = None
+        if isinstance(it, ast.GeneratorExp) and len(it.generators) == 1 and not it.generators[0].ifs:
+            # for x in (f(k) for k in xs):  ==  for k in xs: x = f(k)   (f is evaluated once per element, in order, as in python)
+            mapped = (s.target, it.elt)
+            s_target, it = it.generators[0].target, it.generators[0].iter
+        else:
+            s_target = s.target
         enumerate_ = False
         if isinstance(it, ast.Call) and isinstance(it.func, ast.Name) and it.func.id == 'enumerate' and len(it.args) == 1:
             enumerate_ = True
@@ -1126,7 +1135,8 @@ class Interp:
         self.env[f'__seq{ordinal}'] = seqv  # the iterated sequence, for invariants
         for clause in inv:
             self.p.oblige('inv-init', self.spec_eval(clause), s, f'loop#{ordinal} invariant holds on entry: {clause}')
-        targets = self.assigned_names(s.body) | {n.id for n in ast.walk(s.target) if isinstance(n, ast.Name)}
+        targets = self.assigned_names(s.body) | {n.id for n in ast.walk(s.target) if isinstance(n, ast.Name)} \
+            | {n.id for n in ast.walk(s_target) if isinstance(n, ast.Name)}
         for name in sorted(targets & set(self.env)):
             self.havoc_var(name, f'L{ordinal}')
         i = self.p.fresh(f'i{ordinal}', z3.IntSort())
@@ -1138,7 +1148,9 @@ class Interp:
             item = getter(i)
             if enumerate_:
                 item = PyTuple([i, item])
-            self.assign(s.target, item)
+            self.assign(s_target, item)
+            if mapped is not None:
+                self.assign(mapped[0], self.ev(mapped[1]))
             try:
                 self.block(s.body)
             except Cont:
@@ -2696,7 +2708,7 @@ BUILTINS = {
     'len', 'isinstance', 'bool', 'int', 'str', 'min', 'max', 'range', 'all', 'any', 'getattr', 'hasattr',
     'callable', 'next', 'iter', 'enumerate', 'abs', 'repr', 'sorted', 'hash', 'issubclass', 'super', 'print', 'id',
     'ord', 'chr', 'zip', 'sum', 'old', 'int_ok', 'uint_ok', 'float_ok', 'implies', 'type', 'dict_with', 'dict_get',
-    'dict_has', 'seq_eq', 'out_ok', 'out_frame', 'out_ret', 'out_cut', 'out_fail_frame', 'exc_inside', 'exc_is', 'boundcall', 'top_only', 'store', 'o_none', 'o_ok', 'same_func', 'ismethod', 'is_func', 'ast_walk', 'format', 'is_ok', 'is_err', 'ok_res', 'is_failure', 'grown', 'memo_ok', 'outcome_ok', 'submap', 'forall_keys', 'exists_key', 'is_suffix', 'dataclasses_replace', 'dataclasses_is_dataclass',
+    'dict_has', 'seq_eq', 'out_ok', 'out_frame', 'out_ret', 'out_cut', 'out_fail_frame', 'exc_inside', 'exc_is', 'boundcall', 'top_only', 'store', 'o_none', 'o_ok', 'same_func', 'ismethod', 'is_func', 'ast_walk', 'format', 'is_ok', 'is_err', 'ok_res', 'is_failure', 'grown', 'memo_ok', 'outcome_ok', 'submap', 'forall_keys', 'exists_key', 'is_suffix', 'dataclasses_replace', 'dataclasses_is_dataclass', 'strval',
 }
 
 
